@@ -168,6 +168,7 @@ func runDeviations(ctx *core.Ctx) {
 	devs := []struct{ name, inv string }{
 		{"lookup_by_position", "RoundTripReverse"},
 		{"plural_index_shift", "RoundTripIdentity"},
+		{"plural_by_magnitude", "RoundTripIdentity"},
 		{"extract_no_var", "RoundTripIdentity"},
 		{"same_by_flat_text", "RoundTripIdentity"},
 		{"same_ignores_directives", "RoundTripIdentity"},
